@@ -60,7 +60,7 @@ type Layer struct {
 	Lab    int    `json:"lab,omitempty"`    // source labels: 0 none, 1 distribution.source only, 2 also a stale containerd.io/uncompressed
 	Prio   int    `json:"prio,omitempty"`   // per-layer option: number of prioritized files
 	LChunk int    `json:"lchunk,omitempty"` // per-layer option: chunk size
-	Pre    string `json:"pre,omitempty"`    // "" | "ingest" (interrupted conversion left data under the writer ref) | "retry" (already converted once)
+	Pre    string `json:"pre,omitempty"`    // "" | "ingest" (garbage left under the writer ref) | "interrupt" (a conversion with OTHER options died while streaming: a prefix of its blob is left under the writer ref) | "retry" (already converted once)
 	Annot  bool   `json:"annot,omitempty"`  // source descriptor carries stale eStargz annotations
 }
 
@@ -73,7 +73,8 @@ type Case struct {
 	Spare    int     `json:"spare"` // spare capacity of the caller's option slice
 	CPrio    bool    `json:"cprio,omitempty"`
 	Parallel bool    `json:"parallel"`
-	Ops      []Layer `json:"ops"` // the layers (called ops so that the driver shrinks the list)
+	Gate     bool    `json:"gate,omitempty"` // parallel external-TOC conversions: park the first layer that is about to store its TOC until another layer has been converted completely
+	Ops      []Layer `json:"ops"`            // the layers (called ops so that the driver shrinks the list)
 }
 
 // ---------------------------------------------------------------------------------------------
@@ -287,15 +288,17 @@ type LayerObs struct {
 	AnnUSize string
 	Label    string // containerd.io/uncompressed of the new blob at the end ("" = none)
 	// the abstract functions evaluated by the harness on the committed blob
-	HBlob   string
-	Len     int64
-	HPay    string
-	PayLen  int64
-	Comp    string // compression really used: gzip | zstd | none
-	TOCDg   string // digest of the TOC the blob really carries / the external TOC found for it
-	TOCBlob string // ext: digest of the store blob holding that TOC
-	TOCLen  int64
-	Existed bool // the blob digest was in the store before this case's conversions started
+	HBlob       string
+	Len         int64
+	HPay        string
+	PayLen      int64
+	Comp        string // compression really used: gzip | zstd | none
+	TOCDg       string // digest of the TOC the blob really carries / the external TOC found for it
+	TOCBlob     string // ext: digest of the store blob holding that TOC
+	TOCLen      int64
+	Existed     bool  // the blob digest was in the store before this case's conversions started
+	Leftover    int64 // bytes under the conversion's writer ref before the observed conversions
+	IngestAfter int64 // bytes under the writer ref after them (0 = no ingest)
 }
 
 type MEntry struct {
@@ -309,6 +312,8 @@ type Result struct {
 	Manifest []MEntry
 	HasMfst  bool
 	Problems []string
+	Leftover int  // interrupted conversions that really left data under the writer ref
+	Parked   bool // the gate really held a TOC writer back until another layer was done
 }
 
 func sha(b []byte) string { return digest.FromBytes(b).String() }
@@ -521,6 +526,98 @@ func openAndVerify(kind string, blob []byte, pay []byte, tocBlob []byte, tocDige
 }
 
 // ---------------------------------------------------------------------------------------------
+// content store wrapper used to force schedules and faults (the converters only see a content.Store)
+
+type wrapStore struct {
+	content.Store
+	// gate: the first Writer opened for an "external-toc*" ref is parked until release is closed
+	gate    bool
+	mu      sync.Mutex
+	parked  bool
+	release chan struct{}
+	Parked  bool // observed: a writer was really parked and later released (not timed out)
+	// fault: writers of refs starting with failPrefix fail once more than failAfter bytes were written
+	failPrefix string
+	failAfter  int64
+}
+
+func (g *wrapStore) Writer(ctx context.Context, opts ...content.WriterOpt) (content.Writer, error) {
+	var wo content.WriterOpts
+	for _, o := range opts {
+		if err := o(&wo); err != nil {
+			return nil, err
+		}
+	}
+	if g.gate && strings.HasPrefix(wo.Ref, "external-toc") {
+		g.mu.Lock()
+		first := !g.parked
+		g.parked = true
+		g.mu.Unlock()
+		if first {
+			select {
+			case <-g.release:
+				g.mu.Lock()
+				g.Parked = true
+				g.mu.Unlock()
+			case <-time.After(30 * time.Second):
+			}
+		}
+	}
+	w, err := g.Store.Writer(ctx, opts...)
+	if err != nil {
+		return nil, err
+	}
+	if g.failPrefix != "" && strings.HasPrefix(wo.Ref, g.failPrefix) {
+		return &failWriter{Writer: w, left: g.failAfter}, nil
+	}
+	return w, nil
+}
+
+type failWriter struct {
+	content.Writer
+	left int64
+}
+
+func (f *failWriter) Write(p []byte) (int, error) {
+	if int64(len(p)) > f.left {
+		n, _ := f.Writer.Write(p[:f.left])
+		f.left = 0
+		return n, fmt.Errorf("injected write failure (conversion interrupted)")
+	}
+	f.left -= int64(len(p))
+	return f.Writer.Write(p)
+}
+
+// newConverter builds one converter instance.
+func newConverter(kind, api string, perLayer map[digest.Digest][]estargz.Option, common []estargz.Option, glevel int, zlevel zstd.EncoderLevel, chunk, minChunk int) (cf converter.ConvertFunc, finalize func(ctx context.Context, cs content.Store, ref string, desc *ocispec.Descriptor) (*images.Image, error)) {
+	switch kind {
+	case "esgz":
+		if api == "perlayer" {
+			cf = esgzconv.LayerConvertWithLayerAndCommonOptsFunc(perLayer, common...)
+		} else {
+			cf = esgzconv.LayerConvertFunc(common...)
+		}
+	case "zstd":
+		if api == "perlayer" {
+			cf = zstdconv.LayerConvertWithLayerOptsFuncWithCompressionLevel(zlevel, perLayer)
+		} else {
+			cf = zstdconv.LayerConvertFuncWithCompressionLevel(zlevel, common...)
+		}
+	case "ext":
+		if api == "perlayer" {
+			cf, finalize = extconv.LayerConvertWithLayerAndCommonOptsFunc(perLayer, common, glevel)
+		} else {
+			cf, finalize = extconv.LayerConvertFunc(common, glevel)
+		}
+	case "extll":
+		cf, finalize = extconv.LayerConvertLossLessFunc(extconv.LayerConvertLossLessConfig{CompressionLevel: glevel, ChunkSize: chunk, MinChunkSize: minChunk})
+	default:
+		panic("unknown kind " + kind)
+	}
+	return cf, finalize
+}
+
+// ---------------------------------------------------------------------------------------------
 // execution (deterministic function of the case, up to goroutine scheduling when Parallel)
 
 func layerOpts(l Layer) []estargz.Option {
@@ -634,34 +731,15 @@ func exec(c Case) Result {
 	if glevel == 0 {
 		glevel = gzip.BestCompression
 	}
-	var cf converter.ConvertFunc
-	var finalize func(ctx context.Context, cs content.Store, ref string, desc *ocispec.Descriptor) (*images.Image, error)
 	refPrefix := "convert-estargz-from-"
-	switch c.Kind {
-	case "esgz":
-		if c.API == "perlayer" {
-			cf = esgzconv.LayerConvertWithLayerAndCommonOptsFunc(perLayer, common...)
-		} else {
-			cf = esgzconv.LayerConvertFunc(common...)
-		}
-	case "zstd":
+	if c.Kind == "zstd" {
 		refPrefix = "convert-zstdchunked-from-"
-		if c.API == "perlayer" {
-			cf = zstdconv.LayerConvertWithLayerOptsFuncWithCompressionLevel(zlevel, perLayer)
-		} else {
-			cf = zstdconv.LayerConvertFuncWithCompressionLevel(zlevel, common...)
-		}
-	case "ext":
-		if c.API == "perlayer" {
-			cf, finalize = extconv.LayerConvertWithLayerAndCommonOptsFunc(perLayer, common, glevel)
-		} else {
-			cf, finalize = extconv.LayerConvertFunc(common, glevel)
-		}
-	case "extll":
-		cf, finalize = extconv.LayerConvertLossLessFunc(extconv.LayerConvertLossLessConfig{CompressionLevel: glevel, ChunkSize: c.Chunk, MinChunkSize: c.MinChunk})
-	default:
-		panic("unknown kind " + c.Kind)
 	}
+	cf, finalize := newConverter(c.Kind, c.API, perLayer, common, glevel, zlevel, c.Chunk, c.MinChunk)
+	// the store the converter sees
+	ws := &wrapStore{Store: cs, release: make(chan struct{})}
+	releaseOnce := new(sync.Once)
+	finished := func() { releaseOnce.Do(func() { close(ws.release) }) }
 
 	type out struct {
 		d   *ocispec.Descriptor
@@ -674,7 +752,8 @@ func exec(c Case) Result {
 				o.pan = p
 			}
 		}()
-		d, err := cf(ctx, cs, srcDesc[i])
+		defer finished()
+		d, err := cf(ctx, ws, srcDesc[i])
 		return out{d: d, err: err}
 	}
 
@@ -687,16 +766,52 @@ func exec(c Case) Result {
 				_, _ = w.Write(fileBytes(l.Seed+7, 1500))
 				_ = w.Close() // no Commit, no Abort: the ingest stays, as after a signal
 			}
+		case "interrupt":
+			// a conversion of the same layer by ANOTHER converter instance with other options (other level, chunking)
+			// whose content writer fails mid-stream: what it wrote stays under the writer ref
+			alt := []estargz.Option{estargz.WithChunkSize(7000), estargz.WithCompressionLevel(gzip.BestSpeed)}
+			if glevel == gzip.BestSpeed {
+				alt = []estargz.Option{estargz.WithChunkSize(7000), estargz.WithCompressionLevel(gzip.BestCompression)}
+			}
+			altLevel, altZ := gzip.BestSpeed, zstd.SpeedFastest
+			if glevel == gzip.BestSpeed {
+				altLevel = gzip.BestCompression
+			}
+			if zlevel == zstd.SpeedFastest {
+				altZ = zstd.SpeedBestCompression
+			}
+			acf, _ := newConverter(c.Kind, "common", nil, alt, altLevel, altZ, 7000, 0)
+			fs := &wrapStore{Store: cs, failPrefix: refPrefix, failAfter: int64(200 + l.Seed%700)}
+			func() {
+				defer func() { _ = recover() }()
+				_, _ = acf(ctx, fs, srcDesc[i])
+			}()
+			if st, err := cs.Status(ctx, refPrefix+srcDesc[i].Digest.String()); err == nil && st.Offset > 0 {
+				res.Leftover++
+			}
 		case "retry":
 			_ = run(i)
 		}
 	}
+	// the history above must not release the gate
+	ws.release = make(chan struct{})
+	releaseOnce = new(sync.Once)
+	ws.gate = c.Gate && c.Parallel && finalize != nil && len(c.Ops) > 1
 	existedBefore := map[string]bool{}
 	_ = cs.Walk(ctx, func(info content.Info) error {
 		existedBefore[info.Digest.String()] = true
 		return nil
 	})
 
+	refBytes := func(i int) int64 {
+		if st, err := cs.Status(ctx, refPrefix+srcDesc[i].Digest.String()); err == nil {
+			return st.Offset
+		}
+		return 0
+	}
+	for i := range c.Ops {
+		res.Layers[i].Leftover = refBytes(i)
+	}
 	outs := make([]out, n)
 	if c.Parallel {
 		var wg sync.WaitGroup
@@ -711,12 +826,21 @@ func exec(c Case) Result {
 		}
 		close(start)
 		wg.Wait()
+		ws.mu.Lock()
+		res.Parked = ws.Parked
+		ws.mu.Unlock()
 	} else {
 		for i := range c.Ops {
 			outs[i] = run(i)
 		}
 	}
 
+	for i := range c.Ops {
+		res.Layers[i].IngestAfter = refBytes(i)
+		if outs[i].err == nil && outs[i].pan == nil && outs[i].d != nil && res.Layers[i].IngestAfter != 0 {
+			res.Problems = append(res.Problems, fmt.Sprintf("layer %d: converted, but %d bytes remain ingested under its writer ref", i, res.Layers[i].IngestAfter))
+		}
+	}
 	// TOC image
 	type tocBlobInfo struct {
 		dg   string
@@ -997,8 +1121,8 @@ func coqCase(c Case, r Result) string {
 		// blobs as the tuples of their observable function values (H, len, H.payload, len.payload, compression, TOC digest, external TOC blob)
 		src := fmt.Sprintf("(mkBlob %s %d%%N %s %d%%N None 0%%N 0%%N 0%%N)", in.id(o.SrcDigest), o.SrcLen, in.id(o.SrcDiffID), o.SrcPayLen)
 		blob := fmt.Sprintf("(mkBlob %s %d%%N %s %d%%N %s %s %s %d%%N)", in.id(o.HBlob), o.Len, in.id(o.HPay), o.PayLen, comp, in.id(o.TOCDg), in.id(o.TOCBlob), o.TOCLen)
-		ls = append(ls, fmt.Sprintf("(mkLayer %s %s %s %s %s %s %s %s)", mtCoq[o.SrcMT], in.id(o.SrcDigest), in.id(o.SrcLabel), src,
-			hx.CoqBool(c.Ops[i].Pre == "retry"), hx.CoqBool(ok), blob, obs))
+		ls = append(ls, fmt.Sprintf("(mkLayer %s %s %s %s %s %s %s %s %d%%N %d%%N)", mtCoq[o.SrcMT], in.id(o.SrcDigest), in.id(o.SrcLabel), src,
+			hx.CoqBool(c.Ops[i].Pre == "retry"), hx.CoqBool(ok), blob, obs, o.Leftover, o.IngestAfter))
 	}
 	var ms []string
 	for _, m := range r.Manifest {
@@ -1025,11 +1149,13 @@ func genLayer(r *hx.Rng, kind string) Layer {
 	if r.Chance(1, 4) {
 		l.LChunk = []int{600, 2048, 4096}[r.Intn(3)]
 	}
-	switch r.Pick(8, 2, 2) {
+	switch r.Pick(8, 1, 2, 2) {
 	case 1:
 		l.Pre = "ingest"
 	case 2:
 		l.Pre = "retry"
+	case 3:
+		l.Pre = "interrupt"
 	}
 	l.Annot = (l.Comp == "esgz" || l.Comp == "zstdchunked") && r.Bool() || r.Chance(1, 10)
 	return l
@@ -1047,6 +1173,7 @@ func gen(r *hx.Rng) Case {
 	c.Spare = r.Pick(2, 1, 1, 2) // 0..3 spare slots
 	c.CPrio = r.Chance(1, 5)
 	c.Parallel = r.Chance(2, 3)
+	c.Gate = (c.Kind == "ext" || c.Kind == "extll") && c.Parallel && r.Bool()
 	n := r.Pick(0, 2, 4, 3, 2, 1, 1) // 1..6
 	for i := 0; i < n; i++ {
 		l := genLayer(r, c.Kind)
@@ -1059,6 +1186,31 @@ func gen(r *hx.Rng) Case {
 			}
 		}
 		c.Ops = append(c.Ops, l)
+	}
+	if raceBuild {
+		c.Parallel = true
+		c.Gate = false
+		if c.Kind == "zstd" && r.Chance(2, 3) {
+			c.Kind = []string{"esgz", "ext", "extll"}[r.Intn(3)]
+		}
+		if c.Spare == 0 {
+			c.Spare = 1
+		}
+		c.CPrio = c.CPrio || r.Bool()
+		for len(c.Ops) < 3 {
+			c.Ops = append(c.Ops, genLayer(r, c.Kind))
+		}
+		for i := range c.Ops {
+			if c.Ops[i].MaxSz > 900 {
+				c.Ops[i].MaxSz = 900
+			}
+			if c.Ops[i].NFiles > 3 {
+				c.Ops[i].NFiles = 3
+			}
+		}
+		if c.Chunk > 0 && c.Chunk < 1000 {
+			c.Chunk = 1000
+		}
 	}
 	// every chunk costs a fresh gzip/zstd encoder (~1 MB of state): keep tiny chunk sizes for small files
 	for i := range c.Ops {
@@ -1092,6 +1244,10 @@ func main() {
 		if c.Parallel && len(c.Ops) > 1 {
 			ctx.Count("parallel")
 		}
+		if r.Parked {
+			ctx.Count("gate.parked")
+		}
+		ctx.CountN("pre.interrupt.left", r.Leftover)
 		nok := 0
 		dig := map[string]int{}
 		for i, l := range c.Ops {
@@ -1133,6 +1289,15 @@ func main() {
 		{Kind: "zstd", API: "common", Chunk: 700, Parallel: true, Ops: []Layer{{Seed: 3, NFiles: 3, MaxSz: 900, Comp: "gzip", Fam: "docker"}, {Seed: 4, NFiles: 4, MaxSz: 5000, Comp: "none", Fam: "oci"}, {Seed: 5, NFiles: 2, MaxSz: 900, Comp: "zstd", Fam: "ocind", Lab: 1}}},
 		{Kind: "ext", API: "common", Chunk: 4096, Spare: 2, Parallel: true, Ops: []Layer{{Seed: 6, NFiles: 3, MaxSz: 900, Comp: "gzip", Fam: "oci"}, {Seed: 7, NFiles: 4, MaxSz: 5000, Comp: "none", Fam: "oci"}, {Seed: 8, NFiles: 5, MaxSz: 900, Comp: "gzip", Fam: "docker", Pre: "ingest"}, {Seed: 9, NFiles: 1, MaxSz: 20000, Comp: "gzip", Fam: "oci", Pre: "retry"}}},
 		{Kind: "extll", API: "common", Chunk: 700, Parallel: true, Ops: []Layer{{Seed: 10, NFiles: 3, MaxSz: 900, Comp: "gzip", Fam: "oci", Lab: 2}, {Seed: 11, NFiles: 4, MaxSz: 5000, Comp: "none", Fam: "ocind"}, {Seed: 10, NFiles: 3, MaxSz: 900, Comp: "none", Fam: "oci"}}},
+		// forced schedule: layer A generates its TOC, parks before storing it; another layer converts completely; A stores
+		{Kind: "ext", API: "common", Chunk: 4096, Parallel: true, Gate: true, Ops: []Layer{{Seed: 20, NFiles: 3, MaxSz: 900, Comp: "gzip", Fam: "oci"}, {Seed: 21, NFiles: 4, MaxSz: 5000, Comp: "none", Fam: "oci"}, {Seed: 22, NFiles: 2, MaxSz: 900, Comp: "gzip", Fam: "docker"}}},
+		{Kind: "extll", API: "common", Chunk: 4096, Parallel: true, Gate: true, Ops: []Layer{{Seed: 23, NFiles: 3, MaxSz: 900, Comp: "gzip", Fam: "oci"}, {Seed: 24, NFiles: 4, MaxSz: 5000, Comp: "none", Fam: "oci"}}},
+		// a conversion with other options died while streaming; the retry reuses the writer ref
+		{Kind: "esgz", API: "common", Level: 9, Chunk: 1000, Ops: []Layer{{Seed: 25, NFiles: 4, MaxSz: 5000, Comp: "gzip", Fam: "oci", Pre: "interrupt"}, {Seed: 26, NFiles: 3, MaxSz: 5000, Comp: "none", Fam: "docker", Pre: "interrupt"}}},
+		{Kind: "extll", API: "common", Level: 9, Chunk: 1000, Parallel: true, Ops: []Layer{{Seed: 27, NFiles: 4, MaxSz: 5000, Comp: "gzip", Fam: "oci", Pre: "interrupt"}, {Seed: 28, NFiles: 3, MaxSz: 5000, Comp: "none", Fam: "oci", Pre: "interrupt"}}},
+		{Kind: "zstd", API: "common", Chunk: 1000, Ops: []Layer{{Seed: 29, NFiles: 4, MaxSz: 5000, Comp: "gzip", Fam: "oci", Pre: "interrupt"}}},
+		// common options with WithAllowPrioritizeNotFound(&shared slice), as ctr-remote passes them, all layers in parallel: every Build appends to it
+		{Kind: "esgz", API: "common", CPrio: true, Parallel: true, Ops: []Layer{{Seed: 30, NFiles: 2, MaxSz: 10, Comp: "none", Fam: "oci"}, {Seed: 31, NFiles: 2, MaxSz: 10, Comp: "none", Fam: "oci"}, {Seed: 32, NFiles: 2, MaxSz: 10, Comp: "none", Fam: "oci"}, {Seed: 33, NFiles: 2, MaxSz: 10, Comp: "none", Fam: "oci"}}},
 		{Kind: "esgz", API: "perlayer", Ops: []Layer{{Seed: 12, NFiles: 4, MaxSz: 900, Comp: "esgz", Fam: "oci", Annot: true}, {Seed: 13, NFiles: 3, MaxSz: 900, Comp: "zstd", Fam: "oci", Prio: 2}}},
 	}
 	for _, c := range corpus {
